@@ -41,6 +41,8 @@ AGG = [
     "N - M > 0",
     "M = 2*N",
     "1 <= #sum { Z : s(Z) } <= 3",
+    "not 1 <= #sum { Z : s(Z) } <= 3",
+    "not 2 <= #count { Z : t(Z) } < 3",
     "not #sum { Z : s(Z) } > 2",
     "not not #sum { Z : s(Z) } > 2",
     "#sum { Z : s(Z) } != X",
